@@ -31,7 +31,16 @@ using namespace nixv;
 static std::string workdir;
 static nix::File file;
 static nix::Block block;
-static nix::DataFrame df;
+static nix::DataFrame df;            // the handle the current line goes through (see select_handle)
+// HANDLE ROUTES: the one frame is reached through several LIVE handles; a line may start with @<h>:
+//   @c  the handle createDataFrame returned (after a reopen: the first one fetched)          [default]
+//   @k  a second handle fetched by name right after creation / reopen and kept
+//   @i  a kept handle fetched by id            @g  a kept handle fetched through a nix::Group that references the frame
+//   @f  a fresh handle by name for this line   @x  a fresh handle by index       @y  a fresh handle through the Group
+// Every kept handle has answered rows() once when it was fetched ("peeked"), so a handle that remembers anything
+// about the frame shows it as soon as another handle changes the frame.  The model has one frame.
+static nix::DataFrame h_main, h_kept, h_id, h_group;
+static nix::Group grp;
 static int fileno_ = 0;
 static std::string path;
 
@@ -293,11 +302,56 @@ static std::vector<nix::Cell> build_cells(const std::vector<nix::Cell> &want, co
     throw std::logic_error("bad route " + route);
 }
 
-static std::string handle(const std::vector<std::string> &t) {
+static void drop_handles() {
+    df = nix::DataFrame(); h_main = nix::DataFrame(); h_kept = nix::DataFrame(); h_id = nix::DataFrame(); h_group = nix::DataFrame();
+    grp = nix::none;
+}
+
+// fetch the kept handles and let each of them look at the frame once
+static void fetch_handles(bool writable) {
+    h_kept = nix::DataFrame(); h_id = nix::DataFrame(); h_group = nix::DataFrame(); grp = nix::none;
+    if (!h_main) return;
+    try {
+        h_kept = block.getDataFrame("df");
+        h_id = block.getDataFrame(h_main.id());
+        if (block.hasGroup("g")) grp = block.getGroup("g");
+        else if (writable) { grp = block.createGroup("g", "t"); grp.addDataFrame(h_main); }
+        if (grp) h_group = grp.getDataFrame("df");
+        if (h_kept) (void) h_kept.rows();
+        if (h_id) (void) h_id.rows();
+        if (h_group) (void) h_group.rows();
+    } catch (...) { }
+}
+
+static nix::DataFrame select_handle(const std::string &h) {
+    if (!h_main) return nix::DataFrame();
+    if (h == "c") return h_main;
+    if (h == "k") return h_kept ? h_kept : h_main;
+    if (h == "i") return h_id ? h_id : h_main;
+    if (h == "g") return h_group ? h_group : h_main;
+    if (h == "f") return block.getDataFrame("df");
+    if (h == "x") return block.getDataFrame(static_cast<nix::ndsize_t>(0));
+    if (h == "y") return grp ? grp.getDataFrame("df") : block.getDataFrame("df");
+    throw std::logic_error("bad handle @" + h);
+}
+
+static std::string handle_cmd(const std::vector<std::string> &t);
+
+static std::string handle(const std::vector<std::string> &t0) {
+    std::vector<std::string> t(t0);
+    std::string h = "c";
+    if (!t.empty() && t[0].size() >= 2 && t[0][0] == '@') { h = t[0].substr(1); t.erase(t.begin()); }
+    if (t.empty()) throw std::logic_error("empty command");
+    if (t[0] != "new" && t[0] != "reopen") df = select_handle(h);
+    std::string r = handle_cmd(t);
+    return r;
+}
+
+static std::string handle_cmd(const std::vector<std::string> &t) {
     std::ostringstream o;
     const std::string &c = t[0];
     if (c == "new") {
-        df = nix::DataFrame(); block = nix::none;
+        drop_handles(); block = nix::none;
         if (file) { try { file.close(); } catch (...) {} }
         file = nix::none;
         path = workdir + "/c15-" + std::to_string(fileno_++ % 4) + ".nix";
@@ -312,20 +366,25 @@ static std::string handle(const std::vector<std::string> &t) {
             cols.push_back(col);
         }
         try {
-            df = block.createDataFrame("df", "t", cols);
+            h_main = block.createDataFrame("df", "t", cols);
         } catch (...) {
-            try { if (block.hasDataFrame("df")) df = block.getDataFrame("df"); } catch (...) {}
+            try { if (block.hasDataFrame("df")) h_main = block.getDataFrame("df"); } catch (...) {}
+            df = h_main;
             throw;
         }
+        df = h_main;
+        fetch_handles(true);
         return "done";
     }
     if (c == "reopen") {
-        df = nix::DataFrame(); block = nix::none;
+        drop_handles(); block = nix::none;
         if (file) file.close();
         file = nix::none;
         file = nix::File::open(path, t.at(1) == "ro" ? nix::FileMode::ReadOnly : nix::FileMode::ReadWrite);
         block = file.getBlock("b");
-        if (block && block.hasDataFrame("df")) df = block.getDataFrame("df");
+        if (block && block.hasDataFrame("df")) h_main = block.getDataFrame("df");
+        df = h_main;
+        fetch_handles(t.at(1) != "ro");
         return df ? "done" : "noframe";
     }
     if (!df) {
